@@ -3,6 +3,7 @@
 #include <cmath>
 #include <cstdlib>
 #include <fstream>
+#include <memory>
 #include <functional>
 #include <set>
 #include <sstream>
@@ -211,7 +212,21 @@ int main(int argc, char ** argv)
                 std::vector<int> got;
                 std::string problem, pkey;
                 try {
-                  bxdecay0::event_reader rd(cfg);
+                  // every third session runs on ONE long-lived reader object that is re-configured for each session (whatever state the
+                  // previous session left it in: mid-stream, terminated, or a configuration that raised); it must behave like a fresh one
+                  static bxdecay0::event_reader reused(0);
+                  std::unique_ptr<bxdecay0::event_reader> fresh_rd;
+                  bxdecay0::event_reader * rdp = nullptr;
+                  if (sessions % 3 == 1) {
+                    if (reused.is_configured()) reused.reset_configuration();
+                    reused.set_configuration(cfg);
+                    rdp = &reused;
+                    classes.insert(cls + "/reused-reader");
+                  } else {
+                    fresh_rd.reset(new bxdecay0::event_reader(cfg));
+                    rdp = fresh_rd.get();
+                  }
+                  bxdecay0::event_reader & rd = *rdp;
                   int guard = 0;
                   while (true) {
                     bool h = rd.has_next_event();
